@@ -17,6 +17,8 @@ SHIM_HEAD = """#include <stddef.h>
 #include <stdint.h>
 #include <signal.h>
 #include <setjmp.h>
+#include <sys/time.h>
+#define VERIF_CPU_LIMIT_S 10
 #include "%(header)s"
 
 size_t VerifSizeofPacket(void) { return sizeof(struct Packet); }
@@ -26,21 +28,28 @@ size_t VerifSizeofPacket(void) { return sizeof(struct Packet); }
 static sigjmp_buf verif_jmp;
 static void verif_on_fault(int sig) { siglongjmp(verif_jmp, sig); }
 
+static const int verif_sigs[] = {SIGSEGV, SIGBUS, SIGFPE, SIGABRT, SIGILL, SIGVTALRM};
+#define VERIF_NSIGS ((int)(sizeof(verif_sigs) / sizeof(verif_sigs[0])))
+
+/* rc: 0 returned normally; otherwise the signal that ended the call (SIGVTALRM: the call
+   used more than VERIF_CPU_LIMIT_S seconds of CPU time -- an endless loop) */
 static int verif_guarded(int (*fn)(struct Packet *, unsigned char *), struct Packet *m, unsigned char *s) {
-    struct sigaction sa, old_segv, old_bus, old_fpe;
+    struct sigaction sa, old[VERIF_NSIGS];
+    struct itimerval lim, off, old_timer;
     sa.sa_handler = verif_on_fault;
     sigemptyset(&sa.sa_mask);
     sa.sa_flags = SA_NODEFER;
-    sigaction(SIGSEGV, &sa, &old_segv);
-    sigaction(SIGBUS, &sa, &old_bus);
-    sigaction(SIGFPE, &sa, &old_fpe);
+    for (int i = 0; i < VERIF_NSIGS; i++) sigaction(verif_sigs[i], &sa, &old[i]);
+    lim.it_interval.tv_sec = 0; lim.it_interval.tv_usec = 0;
+    lim.it_value.tv_sec = VERIF_CPU_LIMIT_S; lim.it_value.tv_usec = 0;
+    off.it_interval = lim.it_interval; off.it_value.tv_sec = 0; off.it_value.tv_usec = 0;
     int rc = sigsetjmp(verif_jmp, 1);
     if (rc == 0) {
+        setitimer(ITIMER_VIRTUAL, &lim, &old_timer);
         fn(m, s);
     }
-    sigaction(SIGSEGV, &old_segv, NULL);
-    sigaction(SIGBUS, &old_bus, NULL);
-    sigaction(SIGFPE, &old_fpe, NULL);
+    setitimer(ITIMER_VIRTUAL, &off, NULL);
+    for (int i = 0; i < VERIF_NSIGS; i++) sigaction(verif_sigs[i], &old[i], NULL);
     return rc;
 }
 
